@@ -47,7 +47,11 @@ META = {
         "statelessness / atomicity / argument resolution of the REAL filter objects (object reuse, copies, failing calls, per-call "
         "sources of Q, R, k, t) is decided by the history streams (run, pf-corr); the Lean lemmas run_append, run_last_call, "
         "call_resolution_independent, failed_call_is_no_call, runEKFobj_eq, runUKFobj_eq hold by construction of the model and only "
-        "say what the model means by those words"],
+        "say what the model means by those words",
+        "independence of filter OBJECTS built from the same caller tensors (stream `shared`: two or three EKF / UKF / PF objects "
+        "constructed from one Q0, R0, one re-tuned with set_uncertainty, the others then judged by the 50-digit Kalman posterior "
+        "for the noise model THEY were given; the caller's tensors must be bit-unchanged) is decided by the real code only; the "
+        "model has no object identity"],
     "partial": ["PF Monte-Carlo convergence rate: no theorem (probabilistic limit); decided statistically by the pf-stat "
                 "stream (6.5-sigma band, N = 1e3..1e6, verdict only when the effective sample size N/E[w~^2] >= 200). The "
                 "deterministic skeleton (weights, resampling intervals and their Lebesgue measure, moments, PSD) is proved, "
@@ -629,12 +633,12 @@ def make_filter(P_, c, model, Qs, Rs):
         # the user's subclass provides Q / R as PROPERTIES (the constructor gets nothing to store)
         attrs = {}
         if Qs is not None:
-            attrs["Q"] = property(lambda self: self.userQ)
+            attrs["Q"] = property(lambda self: self.vfh13_userQ)
         if Rs is not None:
-            attrs["R"] = property(lambda self: self.userR)
+            attrs["R"] = property(lambda self: self.vfh13_userR)
         pcls = type("Prop" + base.__name__, (cls,), attrs)
         filt = pcls(model, msqrt=sym_sqrt) if sym else pcls(model)
-        filt.userQ, filt.userR = Qs, Rs
+        filt.vfh13_userQ, filt.vfh13_userR = Qs, Rs
         return filt
     if Qs is None and Rs is None:
         # every optional argument OMITTED (not passed as None): the documented defaults
@@ -657,28 +661,28 @@ def run_gen(ctx: Ctx, c, lines, metas, verbose=False):
     sub = bool(c.get("subclass")) and not c.get("alias_sys")
     jac_bias = None
     if c.get("alias_sys"):
-        model = uf.fam_class().Alias(prm, dt)
-        model.f_mode, model.g_mode = c["alias_sys"]
-        ctx.count(f"run.callbacks-return(f={model.f_mode},g={model.g_mode})")
+        model = uf.fam_class().vfh13_Alias(prm, dt)
+        model.vfh13_f_mode, model.vfh13_g_mode = c["alias_sys"]
+        ctx.count(f"run.callbacks-return(f={model.vfh13_f_mode},g={model.vfh13_g_mode})")
     elif c.get("prop_jac") and not sub:
-        model = uf.fam_class().PropJac(prm, dt)
+        model = uf.fam_class().vfh13_PropJac(prm, dt)
         ctx.count("run.user-Jacobian-properties")
         if c["filter"] == "ekf" and c.get("jac_bias", c["seed"] % 2 == 0):
             # the user's C property deliberately differs from the autograd Jacobian: the documented recursion uses model.C.
             # (not expressible in the driver's family: these calls are judged by the 50-digit oracle only)
             jac_bias = [[0.25 * ((i + 2 * j2) % 3 - 1) for j2 in range(n)] for i in range(p)]
-            model.dC = T(jac_bias)
+            model.vfh13_dC = T(jac_bias)
             ctx.count("run.user-C-property-with-offset")
     else:
-        model = (uf.fam_class().Sub if sub else uf.fam_class())(prm, dt)
+        model = (uf.fam_class().vfh13_Sub if sub else uf.fam_class())(prm, dt)
     if sub:
-        model.delta = T(d["delta"])
+        model.vfh13_delta = T(d["delta"])
         ctx.count("run.user-subclass")
     if c.get("prop_store") and stv_early(c) != "none":
         ctx.count("run.user-QR-properties")
     tmod = 7 if c.get("clock") is not None else 0
     if tmod:
-        model.tmod = tmod
+        model.vfh13_tmod = tmod
         model.reset(c["clock"])
         ctx.count(f"run.clock={c['clock']}")
     elif d["t_reset"]:
@@ -731,8 +735,8 @@ def run_gen(ctx: Ctx, c, lines, metas, verbose=False):
                 prm = dict(prm)
                 prm["A0"] = [[v * dr["A_scale"] for v in row] for row in prm["A0"]]
                 prm["c1"] = uf.round_dt([a + b2 for a, b2 in zip(prm["c1"], dr["c1_delta"])], dt)
-                model.p_A0.mul_(dr["A_scale"])
-                model.p_c1.copy_(T(prm["c1"]))
+                model.vfh13_p_A0.mul_(dr["A_scale"])
+                model.vfh13_p_c1.copy_(T(prm["c1"]))
                 ctx.count("run.system-updated-in-place")
         # ---- a copy of the filter object (deepcopy / fresh object + load_state_dict) takes over for two calls, then the
         # original continues: each must follow its own law (kind 14). Not in `inplace` mode (the system drifts per object).
@@ -828,13 +832,13 @@ def run_gen(ctx: Ctx, c, lines, metas, verbose=False):
         if c.get("fail_at") == j:
             fk = c.get("fail_kind", "callback-g")          # a valid use: the user's system function raises once
             # at which of its evaluations the callback raises: early (reference point), in the middle (Jacobians), late
-            model.fail_next, model.fail_skip = fk[-1], c.get("fail_skip", (c["seed"] + j) % 4)
+            model.vfh13_fail_next, model.vfh13_fail_skip = fk[-1], c.get("fail_skip", (c["seed"] + j) % 4)
             _, ferr = guarded_call(filt, mon, f"{c['filter']}.forward", [x, y, u, P], kw, dict(stc, positional=False), is_ukf)
-            model.fail_next, model.fail_skip = "", 0
+            model.vfh13_fail_next, model.vfh13_fail_skip = "", 0
             ctx.count(f"run.failing-call.{fk}.{'raised' if ferr else 'returned'}")
             if ctorQ is not None and not torch.equal(filt.Q, T(ctorQl)) or ctorR is not None and not torch.equal(filt.R, T(ctorRl)):
                 ctx.fail(stepcase, f"atomic: a failing {c['filter']} call ({fk}) changed the filter's stored Q/R")
-            if not all(torch.equal(getattr(model, "p_" + kx), T(prm[kx])) for kx in uf.FAM_KEYS):
+            if not all(torch.equal(getattr(model, "vfh13_p_" + kx), T(prm[kx])) for kx in uf.FAM_KEYS):
                 ctx.fail(stepcase, f"atomic: a failing {c['filter']} call ({fk}) changed the system's parameters")
             if float(model.systime) != clock0:
                 ctx.fail(stepcase, f"atomic: a failing {c['filter']} call ({fk}) moved the system clock")
@@ -910,7 +914,7 @@ def run_gen(ctx: Ctx, c, lines, metas, verbose=False):
             ctx.fail(stepcase, f"mutation: {c['filter']} call {j} wrote into the caller's buffer behind argument `{nm}` (a view)")
         if (ctorQ is not None and not torch.equal(filt.Q, T(ctorQl))) or (ctorR is not None and not torch.equal(filt.R, T(ctorRl))):
             ctx.fail(stepcase, f"state: {c['filter']} call {j} changed the filter's constructor Q/R")
-        if not all(torch.equal(getattr(model, "p_" + kx), T(prm[kx])) for kx in uf.FAM_KEYS):
+        if not all(torch.equal(getattr(model, "vfh13_p_" + kx), T(prm[kx])) for kx in uf.FAM_KEYS):
             ctx.fail(stepcase, f"state: {c['filter']} call {j} changed the system's parameters")
         if float(model.systime) != clock0:
             ctx.fail(stepcase, f"state: {c['filter']} call {j} moved the system clock from {clock0} to {float(model.systime)}")
@@ -1075,20 +1079,20 @@ def rec_pf_class():
 
             def generate_particles(self, x, P):
                 out = super().generate_particles(x, P)
-                self.rec["xp"] = out.detach().clone()
-                self.rec["gen_args"] = (x.detach().clone(), P.detach().clone())
+                self.vfh13_rec["xp"] = out.detach().clone()
+                self.vfh13_rec["gen_args"] = (x.detach().clone(), P.detach().clone())
                 return out
 
             def relative_likelihood(self, y, ye, R):
                 out = super().relative_likelihood(y, ye, R)
-                self.rec["q"] = out.detach().clone()
-                self.rec["lik_args"] = (y.detach().clone(), ye.detach().clone(), R.detach().clone())
+                self.vfh13_rec["q"] = out.detach().clone()
+                self.vfh13_rec["lik_args"] = (y.detach().clone(), ye.detach().clone(), R.detach().clone())
                 return out
 
             def resample_particles(self, q, x):
                 out = super().resample_particles(q, x)
-                self.rec["xs"] = x.detach().clone()
-                self.rec["xr"] = out.detach().clone()
+                self.vfh13_rec["xs"] = x.detach().clone()
+                self.vfh13_rec["xr"] = out.detach().clone()
                 return out
 
         _REC_PF = RecPF
@@ -1205,16 +1209,16 @@ def pf_setup(c, d):
     T = lambda v: torch.tensor(v, dtype=dt)
     sub = bool(c.get("subclass")) and not c.get("alias_sys")
     if c.get("alias_sys"):
-        model = uf.fam_class().Alias(d["prm"], dt)
-        model.f_mode, model.g_mode = c["alias_sys"]
+        model = uf.fam_class().vfh13_Alias(d["prm"], dt)
+        model.vfh13_f_mode, model.vfh13_g_mode = c["alias_sys"]
     else:
-        model = (uf.fam_class().Sub if sub else uf.fam_class())(d["prm"], dt)
+        model = (uf.fam_class().vfh13_Sub if sub else uf.fam_class())(d["prm"], dt)
     d["prmE"] = d["prm"]
     if sub:
-        model.delta = T(d["delta"])
+        model.vfh13_delta = T(d["delta"])
         d["prmE"] = dict(d["prm"], c2=[a + b2 for a, b2 in zip(d["prm"]["c2"], d["delta"])])
     if c.get("clock") is not None:
-        model.tmod = 7
+        model.vfh13_tmod = 7
         model.reset(c["clock"])
     stv = store_of(c)
     ctorQ = T(d["Qdecoy"]) if stv in ("Q", "both") else None
@@ -1223,7 +1227,7 @@ def pf_setup(c, d):
         pf = rec_pf_class()(model)
     else:
         pf = rec_pf_class()(model, Q=ctorQ, R=ctorR, particles=c["N"])
-    pf.rec = {}
+    pf.vfh13_rec = {}
     return model, pf, T
 
 
@@ -1289,9 +1293,9 @@ def run_pf_corr(ctx: Ctx, c, lines, metas):
         def craft(out):
             """draws at the ends of [0,1) and one ulp on either side of a cumulative-weight boundary (and above the last
             cumulative weight when rounding leaves it below 1: the clamp)"""
-            if not c.get("craft") or out.shape != (N,) or N < 6 or "q" not in pf.rec:
+            if not c.get("craft") or out.shape != (N,) or N < 6 or "q" not in pf.vfh13_rec:
                 return
-            cs = torch.cumsum(pf.rec["q"], dim=-1)
+            cs = torch.cumsum(pf.vfh13_rec["q"], dim=-1)
             i = N // 2
             one, zero = torch.ones((), dtype=out.dtype), torch.zeros((), dtype=out.dtype)
             out[0] = 0.0
@@ -1311,10 +1315,10 @@ def run_pf_corr(ctx: Ctx, c, lines, metas):
         # ---- a failing call (measurement of the wrong length) must leave the objects — incl. the system clock — as they were
         if c.get("fail_at") == j:
             clock0 = float(model.systime)
-            model.fail_next = "g" if j % 2 else "f"       # a valid use: the user's system function raises once
-            model.fail_skip = (c["seed"] + j) % 2          # at the reference point or inside model(xp, u)
+            model.vfh13_fail_next = "g" if j % 2 else "f"       # a valid use: the user's system function raises once
+            model.vfh13_fail_skip = (c["seed"] + j) % 2          # at the reference point or inside model(xp, u)
             _, ferr = guarded_call(pf, mon, "pf.forward", [x, y, u, P], kw, {"grad": "plain"}, False)
-            model.fail_next, model.fail_skip = "", 0
+            model.vfh13_fail_next, model.vfh13_fail_skip = "", 0
             ctx.count(f"pf-corr.failing-call.{'raised' if ferr else 'returned'}")
             if float(model.systime) != clock0:
                 ctx.fail(stepcase, f"atomic: a PF call in which the user's system function raised moved the system clock from "
@@ -1323,7 +1327,7 @@ def run_pf_corr(ctx: Ctx, c, lines, metas):
                     (stv in ("R", "both") and not torch.equal(pf.R, T(d["Rdecoy"]))):
                 ctx.fail(stepcase, "atomic: a failing PF call changed the filter's stored Q/R or particle count")
         torch.manual_seed(st["torch_seed"])
-        pf.rec = {}
+        pf.vfh13_rec = {}
         with RandRecorder(craft) as rr:
             out, err = guarded_call(pf, mon, "pf.forward", [x, y, u, P], kw, st, False)
         if err is not None:
@@ -1350,11 +1354,11 @@ def run_pf_corr(ctx: Ctx, c, lines, metas):
         if (stv in ("Q", "both") and not torch.equal(pf.Q, T(d["Qdecoy"]))) or \
                 (stv in ("R", "both") and not torch.equal(pf.R, T(d["Rdecoy"]))):
             ctx.fail(stepcase, f"state: PF call {j} changed the filter's stored Q/R")
-        if not all(torch.equal(getattr(model, "p_" + kx), T(d["prm"][kx])) for kx in uf.FAM_KEYS):
+        if not all(torch.equal(getattr(model, "vfh13_p_" + kx), T(d["prm"][kx])) for kx in uf.FAM_KEYS):
             ctx.fail(stepcase, f"state: PF call {j} changed the system's parameters")
         ctx.note_case(("pf-corr", n, m, p, N, c["dtype"], c["nonlinear"], j, c["qr_mode"]), N >= 2)
         ctx.count(f"pf-corr.{'nonlin' if c['nonlinear'] else 'lin'}.{c['dtype']}")
-        rec = pf.rec
+        rec = pf.vfh13_rec
         draws = [r for r in rr.draws if r.shape == (N,)]
         if not all(kx in rec for kx in ("xp", "q", "xs", "xr")) or len(draws) != 1:
             ctx.disagree("pf-corr", stepcase, f"could not observe the draws: recorded {sorted(rec)}, torch.rand calls "
@@ -1546,7 +1550,7 @@ def run_pf_stat(ctx: Ctx, c, verbose=False):
         y, u = T(yl), T(st["u"])
         stepcase = dict(c, step=j)
         torch.manual_seed(st["torch_seed"])
-        pf.rec = {}
+        pf.vfh13_rec = {}
         try:
             out = pf(x, y, u, P, **kw)
         except Exception as e:  # noqa: BLE001
@@ -1667,6 +1671,7 @@ def run(ctx: Ctx):
         gens.append(run_gen(ctx, c, lines, metas))
     # calls on different objects (EKF / UKF, different dimensions and dtypes) alternate in one process (kind 17)
     interleave(gens, 3)
+    shared_stream(ctx)
     t1 = time.time()
     # PF with recorded draws
     plines, pmetas = [], []
@@ -1693,6 +1698,222 @@ def run(ctx: Ctx):
     witness_stream(ctx)
     t4 = time.time()
     ctx.notes.append(f"wall: runs {t1 - t0:.1f}s, pf-corr {t2 - t1:.1f}s, model driver {t3 - t2:.1f}s, pf-stat {t4 - t3:.1f}s")
+
+
+# ----------------------------------------------------------------------------- shared argument tensors (class 43)
+
+SHARED_CORPUS = [
+    {"filters": ["ekf", "ukf"], "retune": 0, "retune_what": "both", "late": "ekf", "dtype": "float64", "n": 2, "m": 1, "p": 1},
+    {"filters": ["ukf", "ekf", "pf"], "retune": 1, "retune_what": "both", "late": None, "dtype": "float64", "n": 3, "m": 2, "p": 2},
+    {"filters": ["pf", "ekf"], "retune": 0, "retune_what": "both", "late": "ukf", "dtype": "float64", "n": 2, "m": 1, "p": 2},
+    {"filters": ["ekf", "ekf"], "retune": 1, "retune_what": "Q", "late": None, "dtype": "float32", "n": 1, "m": 1, "p": 1},
+    {"filters": ["ukf", "ukf", "ekf"], "retune": 0, "retune_what": "R", "late": "ekf", "dtype": "float64", "n": 4, "m": 1, "p": 3},
+    {"filters": ["ekf", "pf"], "retune": 1, "retune_what": "both", "late": None, "dtype": "float32", "n": 2, "m": 2, "p": 1},
+]
+
+
+def gen_shared(rng: random.Random, force=None):
+    """a history on two or three filters (EKF / UKF / PF mixed) constructed from the SAME caller tensors Q0, R0 (and called
+    with the same P0 / x0 tensor objects); one of them is re-tuned with `set_uncertainty` (same shapes, other values)"""
+    c = {"kind": "shared", "seed": rng.randrange(1 << 40)}
+    c["n"], c["m"], c["p"] = rng.choice([1, 2, 3, 4]), rng.choice([1, 2]), rng.choice([1, 2, 3])
+    c["dtype"] = rng.choice(["float64", "float64", "float32"])
+    c["filters"] = rng.choice([["ekf", "ukf"], ["ukf", "ekf"], ["ekf", "ekf"], ["ukf", "ukf"], ["ekf", "ukf", "pf"],
+                               ["pf", "ekf"], ["ukf", "pf", "ekf"], ["pf", "pf"], ["ukf", "pf"]])
+    c["retune"] = rng.randrange(len(c["filters"]))
+    c["retune_what"] = rng.choice(["both", "both", "Q", "R"])
+    c["retune_twice"] = rng.random() < 0.4
+    c["late"] = rng.choice([None, "ekf", "ukf", "pf"])
+    c["N"] = rng.choice([40, 200])
+    c.update(force or {})
+    return c
+
+
+def run_shared(ctx: Ctx, c, verbose=False):
+    P_ = uf.pp()
+    rng = random.Random(c["seed"])
+    n, m, p, dt = c["n"], c["m"], c["p"], dt_of(c["dtype"])
+    eps = common.EPS[c["dtype"]]
+    T = lambda v: torch.tensor(v, dtype=dt)
+    torch.manual_seed(c["seed"] % (1 << 31))
+    prm = uf.gen_family(rng, n, m, p, dt, False, False, stable=True)
+    mk = lambda nn, s: uf.sym_round(uf.spd(rng, nn, s, 10.0, False), dt)
+    Ql = [mk(n, 0.3), mk(n, 3.0), mk(n, 0.05)]          # Q0 (constructor), Q1, Q2 (re-tuning): same shape, other values
+    Rl = [mk(p, 1.0), mk(p, 0.1), mk(p, 7.0)]
+    P0l, x0l = mk(n, 1.0), uf.round_dt(uf.vec_mag(rng, n, [1.0]), dt)
+    # the caller's tensor objects: ONE Q0, ONE R0 feed every constructor, ONE x0 / P0 feed every first call
+    Qt, Rt = [T(v) for v in Ql], [T(v) for v in Rl]
+    P0, x0 = T(P0l), T(x0l)
+    held = [("Q0", Qt[0], Ql[0]), ("R0", Rt[0], Rl[0]), ("Q1", Qt[1], Ql[1]), ("R1", Rt[1], Rl[1]), ("Q2", Qt[2], Ql[2]),
+            ("R2", Rt[2], Rl[2]), ("P0", P0, P0l), ("x0", x0, x0l)]
+    N = c.get("N", 200)
+    hist = []                                              # the concrete history, for the failure message
+
+    def build(kind):
+        model = uf.fam_class()(prm, dt)
+        if kind == "pf":
+            f = rec_pf_class()(model, Q=Qt[0], R=Rt[0], particles=N)
+            f.vfh13_rec = {}
+        else:
+            f = (P_.module.UKF if kind == "ukf" else P_.module.EKF)(model, Q=Qt[0], R=Rt[0])
+        return {"kind": kind, "f": f, "model": model, "Q": 0, "R": 0, "x": x0, "P": P0, "xl": x0l, "Pl": P0l}
+
+    reported = set()
+
+    def hygiene(tag):
+        """reports every changed caller tensor / stored covariance ONCE; the history goes on (the calls that follow show
+        what the change does to the other filters' results)"""
+        ok = True
+        for nm, tens, vals in held:
+            if nm in reported:
+                continue
+            if not torch.equal(tens, T(vals)):
+                reported.add(nm)
+                ctx.fail(dict(c, step=tag), f"mutation: after [{'; '.join(hist)}] the caller's tensor `{nm}` has changed "
+                                            f"(max |d| = {float((tens.double() - T(vals).double()).abs().max()):.3e})")
+                ok = False
+        for i, o in enumerate(objs):
+            for nm, idx, lst in (("Q", o["Q"], Ql), ("R", o["R"], Rl)):
+                try:
+                    cur = getattr(o["f"], nm)
+                except Exception as e:       # noqa: BLE001
+                    ctx.fail(dict(c, step=tag), f"raises: reading `{nm}` of filter {i} ({o['kind']}) after [{'; '.join(hist)}]: "
+                                                f"{type(e).__name__}: {str(e)[:80]}")
+                    ok = False
+                    continue
+                if (i, nm) in reported:
+                    continue
+                if not (isinstance(cur, torch.Tensor) and cur.shape == T(lst[idx]).shape and torch.equal(cur, T(lst[idx]))):
+                    reported.add((i, nm))
+                    ctx.fail(dict(c, step=tag), f"state: after [{'; '.join(hist)}] the stored `{nm}` of filter {i} ({o['kind']}) "
+                                                f"is no longer the {nm}{idx} it was given")
+                    ok = False
+        return ok
+
+    def use(i, tag):
+        """one call on filter i that relies on ITS stored Q / R; judged by the Kalman posterior for the noise model it was given"""
+        o = objs[i]
+        ul = uf.round_dt(uf.vec_mag(rng, m, [0.0, 0.1, 1.0]), dt)
+        fam = uf.MpFam(prm, 0.0)
+        Qe, Re = Ql[o["Q"]], Rl[o["R"]]
+        ref0 = uf.mp_kalman_predict(fam, ul, Qe, Re, o["xl"], o["Pl"])
+        yl = uf.round_dt([float(ref0["gx"][q_]) + rng.gauss(0, 1) * rng.choice([0.3, 1.0, 3.0]) for q_ in range(p)], dt)
+        ref = uf.mp_kalman_update(ref0, yl)
+        hist.append(f"filter {i} ({o['kind']}) called with its stored Q{o['Q']}, R{o['R']}")
+        case = dict(c, step=tag)
+        ctx.note_case(("shared", tuple(c["filters"]), c["retune"], c["retune_what"], tag, n, m, p, c["dtype"]), True)
+        ctx.count(f"shared.call.{o['kind']}")
+        u, y = T(ul), T(yl)
+        if o["kind"] == "pf":
+            o["f"].vfh13_rec = {}
+        if o["kind"] == "ukf" and o.get("tolP", 0.0) > 0 and sym_defect(o["P"])[1] <= 4 * n * o["tolP"]:
+            # this filter's own previous posterior is singular at rounding level (its smallest eigenvalue is below the
+            # tolerance of the call that produced it): no Cholesky factor in floating point — not a verdict, history ends
+            ctx.count("shared.stopped.rounding-singular-prior")
+            hist.pop()
+            return False
+        try:
+            out = o["f"](o["x"], y, u, o["P"])
+        except Exception as e:       # noqa: BLE001
+            ctx.fail(case, f"raises: [{'; '.join(hist)}]: {type(e).__name__}: {str(e)[:100]}")
+            return False
+        bad = bad_output(out, n, dt)
+        if bad:
+            ctx.fail(case, f"output: [{'; '.join(hist)}]: {bad}")
+            return False
+        x2, P2 = out[0].detach(), out[1].detach()
+        if o["kind"] == "pf":
+            rec = o["f"].vfh13_rec
+            if "lik_args" in rec and "xr" in rec:
+                if not torch.equal(rec["lik_args"][2], T(Re)):
+                    ctx.fail(case, f"shared-pf-noise: [{'; '.join(hist)}]: the likelihood used another R than the R{o['R']} this "
+                                   f"filter was given (max |d| = {float((rec['lik_args'][2].double() - T(Re).double()).abs().max()):.3e})")
+                xr = rec["xr"].double()
+                ex = xr - xr.mean(dim=0)
+                Pref = torch.tensor(Qe, dtype=torch.float64) + (ex.unsqueeze(-1) * ex.unsqueeze(-2)).mean(dim=0)
+                sc = float(Pref.abs().max()) + float(xr.abs().max()) ** 2
+                if not (float((P2.double() - Pref).abs().max()) <= CTOL * eps * sc):
+                    ctx.fail(case, f"shared-pf-noise: [{'; '.join(hist)}]: returned P is not Q{o['Q']} + covariance of the resampled "
+                                   f"particles (|dP| = {float((P2.double() - Pref).abs().max()):.3e})")
+            else:
+                ctx.disagree("shared", case, f"could not observe the PF stages: recorded {sorted(rec)}")
+        else:
+            tol = None
+            if o["kind"] == "ukf":
+                try:
+                    uinfo = uf.np_ukf(uf.NpFam(prm, 0.0), 3 - n, ul, yl, Qe, Re, o["xl"], o["Pl"])
+                    if all(math.isfinite(v) for v in uinfo.values()):
+                        tol = tol_pair(uinfo, eps, 1.0)
+                except (np.linalg.LinAlgError, ZeroDivisionError, FloatingPointError):
+                    tol = None
+            else:
+                tol = tol_pair(ref, eps)
+            if tol is not None:
+                rx, rP = uf.ratio(x2, ref["x"], tol[0]), uf.ratio(P2, ref["P"], tol[1])
+                ctx.count("oracle.shared-kf-equality")
+                if verbose:
+                    print(f"  {hist[-1]}: x={x2.tolist()} reference x={uf.mp_to_list(ref['x'])}")
+                if not (rx <= 1 and rP <= 1):
+                    ctx.fail(case, f"shared-kf-equality: [{'; '.join(hist)}]: the result is not the Kalman posterior for (Q{o['Q']}, "
+                                   f"R{o['R']}): |x-x_KF|={uf.maxdiff(x2, ref['x']):.3e} ({rx:.2e} x tol) "
+                                   f"|P-P_KF|={uf.maxdiff(P2, ref['P']):.3e} ({rP:.2e} x tol) n,m,p={n},{m},{p} {c['dtype']}")
+        o["x"], o["P"] = x2.clone(), P2.clone()
+        o["xl"], o["Pl"] = x2.double().tolist(), P2.double().tolist()
+        o["tolP"] = 0.0 if o["kind"] == "pf" else (float("inf") if tol is None else tmax(tol[1]))
+        hygiene(tag)
+        return True
+
+    def retune(i, ver, what):
+        o = objs[i]
+        kw = {}
+        if what in ("both", "Q"):
+            kw["Q"], o["Q"] = Qt[ver], ver
+        if what in ("both", "R"):
+            kw["R"], o["R"] = Rt[ver], ver
+        hist.append(f"filter {i} ({o['kind']}).set_uncertainty({', '.join(f'{k_}={k_}{ver}' for k_ in kw)})")
+        ctx.count("shared.set_uncertainty")
+        try:
+            o["f"].set_uncertainty(**kw)
+        except Exception as e:       # noqa: BLE001
+            ctx.fail(dict(c, step="retune"), f"raises: [{'; '.join(hist)}]: {type(e).__name__}: {str(e)[:100]}")
+            return False
+        hygiene(f"retune{ver}")
+        return True
+
+    objs = [build(k_) for k_ in c["filters"]]
+    hist.append(f"{len(objs)} filters ({', '.join(c['filters'])}) constructed from the same Q0, R0 ({c['dtype']}, n,m,p={n},{m},{p})")
+    r = c["retune"]
+    others = [i for i in range(len(objs)) if i != r]
+    if c.get("use_before", True):
+        for i in range(len(objs)):
+            if not use(i, f"before{i}"):
+                return
+    if not retune(r, 1, c["retune_what"]):
+        return
+    for i in others + [r]:
+        if not use(i, f"after{i}"):
+            return
+    if c.get("retune_twice"):
+        # a second re-tuning, of the same filter (its buffers now hold the caller's Q1 / R1 objects) or of another one
+        r2 = r if rng.random() < 0.5 else others[0]
+        if not retune(r2, 2, "both"):
+            return
+        for i in range(len(objs)):
+            if not use(i, f"again{i}"):
+                return
+    if c.get("late"):
+        objs.append(build(c["late"]))
+        hist.append(f"filter {len(objs) - 1} ({c['late']}) constructed from the same Q0, R0 afterwards")
+        use(len(objs) - 1, "late")
+
+
+def shared_stream(ctx: Ctx):
+    rng = random.Random(ctx.seed * 104729 + 43)
+    for i, force in enumerate(SHARED_CORPUS):
+        ctx.count("corpus.shared")
+        run_shared(ctx, gen_shared(random.Random(4300 + i), dict(force, seed=4300 + i, corpus=300 + i, retune_twice=bool(i % 2), N=60)))
+    for _ in range(ctx.pick(10, 60)):
+        run_shared(ctx, gen_shared(rng))
 
 
 _QUAD = None
@@ -1828,6 +2049,8 @@ def replay(ctx: Ctx, case) -> bool:
         run_pf_stat(ctx, c, verbose=True)
     elif kind == "witness":
         witness_stream(ctx)
+    elif kind == "shared":
+        run_shared(ctx, c, verbose=True)
     for f in ctx.failures[n0:]:
         print("  fails:", f["what"])
     for dd in ctx.disagreements:
